@@ -434,7 +434,12 @@ impl FrameWriter for TproxyWriter {
             .addr
             .as_ref()
             .and_then(|x| x.as_socket_addr())
-            .unwrap();
+            .ok_or_else(|| {
+                std::io::Error::new(
+                    std::io::ErrorKind::InvalidInput,
+                    "frame has no socket address to reply from",
+                )
+            })?;
         let mut sockets = self.inner.sockets.lock().await;
         let socket = if let Some(socket) = sockets.get(&src) {
             socket
